@@ -156,6 +156,12 @@ pub fn plan(tier: Tier) -> Plan {
       n_pipes += 1;
       jobs.push(unsub_job(Pipe::hot(0).o1(t.clone()), form, len_t + 1, devs));
     }
+    // the stages that keep one task handle per notification in flight: histories
+    // long enough for "two in flight, one run, a third arrives, unsubscribe, the rest runs"
+    for t in [Op1::Delay(1), Op1::ObserveOn] {
+      n_pipes += 1;
+      jobs.push(unsub_job(Pipe::hot(0).o1(t), form, 6, 2));
+    }
     // scheduler-using stage combined with every other catalogue entry
     for t in &time_ops(false) {
       for o in sync.iter().chain(time_ops(false).iter()) {
